@@ -2345,7 +2345,7 @@ def check_C16(tier):
     ck.cov["counters"] = cnt
     ck.cov["rule"] = ("FEN: every string of the structured family generated by FenInput.tla (token sequences for the first ranks, every field "
                       "replaced by bad values, truncations) and seeded byte-level mutants of corpus FENs - error, or a position that round-trips "
-                      "and answers queries, never a panic or hang; every node FEN of the TLC trees round-trips exactly. UCI: each line of a "
+                      "and answers queries, never a panic or hang; legal positions damaged by FenWellFormed.tla with edits that keep the FEN text well formed (side flipped, en-passant square set, castling right added, piece removed / put, king moved): every ACCEPTED string of all families is judged by the specification's WellFormed on the position the engine holds for it, and every move of it is made and taken back to depth 2; every node FEN of the TLC trees round-trips exactly. UCI: each line of a "
                       "malformed-command catalogue inserted into valid sessions while idle and while searching, in a child process: the engine "
                       "must survive, answer isready, keep its position, and the session must stay a behaviour of UciSession.tla with the "
                       "malformed line as a no-op; non-trivial = generated/mutated strings and malformed sessions")
